@@ -299,6 +299,7 @@ func TestVerifC35Policy(t *testing.T) {
 	roles := verifRoles
 	exps := verifExpiries
 	if !mc.Thorough() {
+		roles = verifRoles[:6]
 		exps = []verifExpiry{verifExpiries[0], verifExpiries[1], verifExpiries[4], verifExpiries[7]}
 	}
 	mc.Run(t, mc.Config{ID: "C35", Name: "C35-policy", MaxDev: -1, Params: map[string]interface{}{
